@@ -38,6 +38,10 @@ partial def runOps (g : Teid.G) (live : List Nat) : List String → Nat → Verd
     match nat? id, nat? r with
     | some id, some r =>
       let m := if id < 1 then false else g.used (id - 1)
+      -- oracle: a TEID that was handed out and not released is still in use (else it can be chosen a second time)
+      if live.contains id ∧ r = 0 then
+        (.oracle s!"op {i}: TEID {id} was chosen and has not been released, yet it is no longer marked in use — the release of another identifier un-marked it; it can now be chosen for a second session", 0)
+      else
       if b2n m != r then (.mismatch s!"op {i}: IsAllocated({id}) model {m}, observed {r}", 0)
       else runOps g live rest (i+1)
     | _, _ => (.bad "Q", 0)
